@@ -39,6 +39,7 @@ type Ctx struct {
 	files        map[*token.File]*ast.File
 
 	globalStores map[*ssa.Global][2]int
+	immutable    map[string]bool // (struct type, field) never written after construction (frame.go)
 }
 
 var repoRootForRel string
